@@ -20,7 +20,7 @@ RULE = ("case = generated layout (depth <= 4, 10-25 entries incl. look-alikes an
         "(./src, src, a/b, absolute) ; runs: check + edit from the project dir, then edit again from 1-2 other working "
         "directories (relative and absolute -c). Non-trivial = layout with at least one out-of-scope decoy carrying a missing "
         "reference and one in-scope file; distinct = case index.")
-PROBES = ["unreadable_subdir", "config_in_subdir", "symlink_to_file", "symlink_to_dir", "symlink_outside", "dir_named_rs", "lookalike_ext", "abs_source_dir", "cwd_outside",
+PROBES = ["exdev_run", "stem_siblings", "unreadable_subdir", "config_in_subdir", "symlink_to_file", "symlink_to_dir", "symlink_outside", "dir_named_rs", "lookalike_ext", "abs_source_dir", "cwd_outside",
           "cwd_root_abs", "empty_scope", "multi_ext", "hidden_rs", "nested_depth4"]
 ASSUMPTIONS = ["source_dir itself is a real directory (not a symlink)"]
 DEADLINE = {"quick": 200, "thorough": 3000}
@@ -85,6 +85,15 @@ def gen(rng):
             tags.add("lookalike_ext")
         if nm == ".hidden.rs":
             tags.add("hidden_rs")
+    # siblings that editors, version control and crashed tools leave next to source files: same stem, other extension
+    for p0 in [x for x in sorted(extra) if x.endswith(".rs") and extra[x]["t"] == "f"][:3]:
+        if rng.random() < 0.5:
+            stem = p0[:-3]
+            for suffix in rng.sample([".tmp", ".bak", ".rs~", ".orig", ".rs.orig", ".swp", ".new", ".rs.tmp"], 2):
+                q = stem + suffix if not suffix.startswith(".rs") else p0 + suffix[3:]
+                if q not in extra:
+                    extra[q] = {"t": "f", "mode": 0o644, "data": b"// sibling of a source file; not in scope\n" + stmt(mk())}
+            tags.add("stem_siblings")
     # always at least one plain in-scope candidate
     extra.setdefault(os.path.join(base, "main.rs"), {"t": "f", "mode": 0o644, "data": stmt(mk())})
     # files beside the config but outside source_dir, and in outside/
@@ -284,6 +293,27 @@ def evaluate_unreadable_dir(wm, seed, base, nth, ctx):
     return viols
 
 
+def evaluate_exdev(wm, seed, base, ctx):
+    """TMPDIR on another filesystem: every rename out of it fails with EXDEV.  Whatever the tool does about that (fail,
+    or fall back to some other way of putting the content in place), out-of-scope paths stay untouched."""
+    scope = model_scope(wm, base)
+    plan = {"seed": seed, "perm": True, "faults": [{"from": 1, "kinds": ["RENAME"], "pre": "tmp/", "act": "fail", "errno": "EXDEV"}]}
+    cfgname = wm.get("cfg_name", "Breadlog.yaml")
+    run = scen.exec_run(wm, False, plan, {"cwd": "proj", "config_arg": "rel", "threads": 2, "config_name": cfgname}, ctx)
+    res = run["res"]
+    if res.mode != "exited" or not res.fired_counts():
+        return []
+    ctx.probes["exdev_run"] += 1
+    lockpath = "proj/" + (cfgname.rsplit("/", 1)[0] + "/" if "/" in cfgname else "") + "Breadlog.lock"
+    bad = [(p, how) for p, how in core.diff_worlds(run["before"], run["after"], ignore=("tmp",))
+           if p not in scope and p != lockpath and not p.startswith(lockpath)]
+    if bad:
+        dg = hashlib.sha256((res.trace_digest() + core.digest_world(run["after"])).encode()).hexdigest()
+        return [{"signature": "out-of-scope-path-changed|exdev", "what": "every rename out of TMPDIR failed with EXDEV; afterwards %s"
+                 % bad[:4], "scenario": {"wm": world.wm_to_json(wm), "seed": seed, "base": base, "exdev": True}, "digest": dg}]
+    return []
+
+
 def run_case(rng, idx, tier, ctx):
     wm, seed, tags, base = gen(rng)
     cw = [("outside", "rel"), ("/", "abs"), ("root", "rel"), ("outside", "abs")]
@@ -292,6 +322,7 @@ def run_case(rng, idx, tier, ctx):
     viols, scope = evaluate(wm, seed, base, ctx, cwds)
     if not viols and scope:
         viols += evaluate_unreadable_dir(wm, seed, base, rng.randrange(2, 7), ctx)
+        viols += evaluate_exdev(wm, seed, base, ctx)
     for t in tags:
         ctx.probes[t] += 1
     for c, _a in cwds:
@@ -312,6 +343,8 @@ def run_case(rng, idx, tier, ctx):
 
 def replay(scenario, ctx):
     wm = world.wm_from_json(scenario["wm"])
+    if scenario.get("exdev"):
+        return evaluate_exdev(wm, scenario["seed"], scenario["base"], ctx)
     if "opendir_nth" in scenario:
         return evaluate_unreadable_dir(wm, scenario["seed"], scenario["base"], scenario["opendir_nth"], ctx)
     cwds = tuple(tuple(c) for c in scenario.get("cwds", [["outside", "rel"], ["/", "abs"]]))
